@@ -506,16 +506,19 @@ func (c *Ctx) checkConfigSetRouting(info *types.Info, fd *ast.FuncDecl) {
 	// local store: values[app][key] = value and fileRefSet[app][key] = fileRef in the default arm
 	okVal, okRef := false, false
 	ast.Inspect(fd.Body, func(nd ast.Node) bool {
-		if as, ok := nd.(*ast.AssignStmt); ok && len(as.Lhs) == 1 && len(as.Rhs) == 1 {
-			l := c.src(as.Lhs[0])
-			r, isId := unparen(as.Rhs[0]).(*ast.Ident)
-			ps := flatParams(fd)
-			if isId && len(ps) == 4 {
-				if l == rv+".values["+ps[0]+"]["+ps[1]+"]" && r.Name == ps[2] {
-					okVal = true
-				}
-				if l == rv+".fileRefSet["+ps[0]+"]["+ps[1]+"]" && r.Name == ps[3] {
-					okRef = true
+		if as, ok := nd.(*ast.AssignStmt); ok && len(as.Lhs) == len(as.Rhs) {
+			// single or tuple assignment (`values[a][k], fileRefSet[a][k] = value, fileRef`)
+			for i := range as.Lhs {
+				l := c.src(as.Lhs[i])
+				r, isId := unparen(as.Rhs[i]).(*ast.Ident)
+				ps := flatParams(fd)
+				if isId && len(ps) == 4 {
+					if l == rv+".values["+ps[0]+"]["+ps[1]+"]" && r.Name == ps[2] {
+						okVal = true
+					}
+					if l == rv+".fileRefSet["+ps[0]+"]["+ps[1]+"]" && r.Name == ps[3] {
+						okRef = true
+					}
 				}
 			}
 		}
